@@ -27,7 +27,11 @@ pub struct Probes {
     pub buggify_fired: u64,
     pub map_iter_multi: u64,
     pub faults_fired: u64,
+    pub faults_fired_in_comprehension: u64,
     pub comprehensions: u64,
+    pub stub_yc: u64,
+    pub preempted_at_shared_append: u64,
+    pub preempted_in_comprehension_body: u64,
 }
 
 impl Probes {
@@ -48,6 +52,10 @@ impl Probes {
         self.map_iter_multi += o.map_iter_multi;
         self.faults_fired += o.faults_fired;
         self.comprehensions += o.comprehensions;
+        self.faults_fired_in_comprehension += o.faults_fired_in_comprehension;
+        self.stub_yc += o.stub_yc;
+        self.preempted_at_shared_append += o.preempted_at_shared_append;
+        self.preempted_in_comprehension_body += o.preempted_in_comprehension_body;
     }
 
     pub fn to_json(&self) -> serde_json::Value {
@@ -71,6 +79,10 @@ impl Probes {
             "map_iterated_multi_key": self.map_iter_multi,
             "callback_faults_fired": self.faults_fired,
             "comprehensions_entered": self.comprehensions,
+            "callback_faults_fired_inside_comprehension_body": self.faults_fired_in_comprehension,
+            "stub_yc_inside_comprehension_body": self.stub_yc,
+            "preempted_at_append_of_shared_buffer": self.preempted_at_shared_append,
+            "preempted_inside_comprehension_body": self.preempted_in_comprehension_body,
         })
     }
 }
@@ -227,7 +239,7 @@ fn edge_decision() {
     if let Some((s, tid)) = target {
         // no edge may be counted while we are inside the scheduler
         EDGE_COUNTING.with(|c| c.set(false));
-        let gap = s.yield_point(tid, SITE_EDGE);
+        let (gap, _) = s.yield_point(tid, SITE_EDGE);
         EDGE_COUNTDOWN.with(|c| c.set(gap));
         EDGE_COUNTING.with(|c| c.set(true));
     }
@@ -322,7 +334,7 @@ impl Drop for OracleGuard {
     }
 }
 
-fn yield_at(site: u32) {
+fn yield_at(site: u32) -> bool {
     let target = with(|ts| {
         if !ts.active || ts.oracle_depth > 0 {
             return None;
@@ -334,9 +346,12 @@ fn yield_at(site: u32) {
     });
     if let Some((s, tid)) = target {
         let counting = EDGE_COUNTING.with(|c| c.replace(false));
-        let gap = s.yield_point(tid, site);
+        let (gap, switched) = s.yield_point(tid, site);
         EDGE_COUNTDOWN.with(|c| c.set(gap));
         EDGE_COUNTING.with(|c| c.set(counting));
+        switched
+    } else {
+        false
     }
 }
 
@@ -380,7 +395,10 @@ fn sched_hook(site: u32, aux: u64) {
         false
     });
     if !skip {
-        yield_at(site);
+        let switched = yield_at(site);
+        if switched && (site == 3 || site == 4) && aux >= 2 {
+            with(|ts| ts.probes.preempted_at_shared_append += 1);
+        }
     }
 }
 
@@ -422,6 +440,28 @@ pub fn stub_y() {
     }
 }
 
+/// `yc(v, 'x')`: like `y`, emitted by the generator only inside comprehension bodies; `var` is
+/// the iteration variable of the innermost enclosing macro.
+pub fn stub_yc(var: &str) {
+    let target = with(|ts| {
+        if ts.active && ts.oracle_depth == 0 {
+            ts.probes.stub_yc += 1;
+            ts.steps += 1;
+            Some((ts.sched.clone(), ts.tid))
+        } else {
+            None
+        }
+    });
+    if let Some((sched, tid)) = target {
+        if let Some(s) = &sched {
+            s.note_comp_var(tid, var);
+        }
+        if yield_at(SITE_STUB_Y) {
+            with(|ts| ts.probes.preempted_in_comprehension_body += 1);
+        }
+    }
+}
+
 pub fn stub_log(v: &Value) {
     let s = snap(v);
     with(|ts| {
@@ -434,8 +474,8 @@ pub fn stub_log(v: &Value) {
     })
 }
 
-/// Returns true if this call must fail.
-pub fn stub_boom() -> bool {
+/// Returns true if this call must fail. `in_comprehension`: the call site is inside a macro body.
+pub fn stub_boom(in_comprehension: bool) -> bool {
     with(|ts| {
         if !ts.active {
             return false;
@@ -445,6 +485,9 @@ pub fn stub_boom() -> bool {
         if ts.boom_fail_at != 0 && ts.boom_calls == ts.boom_fail_at {
             ts.boom_fired = true;
             ts.probes.faults_fired += 1;
+            if in_comprehension {
+                ts.probes.faults_fired_in_comprehension += 1;
+            }
             true
         } else {
             false
